@@ -98,14 +98,14 @@ class AbstractBFGS(AbstractMLE):
         try:
             search_internal_dict = self.paths.load_search_internal()
 
-            x0 = search_internal_dict["x0"]
+            x0 = search_internal_dict["x"]
             total_iterations = search_internal_dict["total_iterations"]
 
             self.logger.info(
                 "Resuming LBFGS non-linear search (previous samples found)."
             )
 
-        except (FileNotFoundError, TypeError):
+        except (FileNotFoundError, TypeError, KeyError):
 
             (
                 unit_parameter_lists,
@@ -155,6 +155,7 @@ class AbstractBFGS(AbstractMLE):
                 )
 
                 total_iterations += search_internal.nit
+                search_internal.total_iterations = total_iterations
 
                 search_internal.log_posterior_list = -0.5 * fitness(
                     parameters=search_internal.x
